@@ -12,7 +12,7 @@ use std::collections::{BTreeMap, BTreeSet};
 use std::path::{Path, PathBuf};
 use std::sync::atomic::{AtomicUsize, Ordering};
 
-pub const RULE: &str = "proptest-generated directory trees (depth <= 3; directory names from normal / documented-ignored / near-miss pools, file names at and near the collection patterns, helper modules and packages, import statements of 3 kinds and relative levels 0-2, exclude pattern sets from the algebra {dir/**, **/name.py, exact path}, non-UTF-8 files) materialised under /dev/shm below 6 different absolute prefixes (plain, build/, env/, node_modules/, site-packages/, venv/lib/). Oracles: indexed file set == selected files + import closure - unreadable (model); every indexed file's records == its stand-alone analysis; root-relative records, classification flags and CLI output identical across placements. Non-trivial = the tree has an ignored directory containing a would-match file, a fault, an exclude that hits, or an import that resolves; distinct = distinct tree specs.";
+pub const RULE: &str = "proptest-generated directory trees (depth <= 3; directory names from normal / documented-ignored / near-miss pools, file names at and near the collection patterns, helper modules and packages, import statements of 3 kinds and relative levels 0-2, exclude pattern sets from the algebra {dir/**, **/name.py, exact path}, non-UTF-8 files) materialised under /dev/shm below 6 different absolute prefixes (plain, build/, env/, node_modules/, site-packages/, venv/lib/) and, for two of them, named through a symlink. Oracles: indexed file set == selected files + import closure - unreadable (model); every indexed file's records == its stand-alone analysis; root-relative records, classification flags and CLI output identical across placements. Non-trivial = the tree has an ignored directory containing a would-match file, a fault, an exclude that hits, or an import that resolves; distinct = distinct tree specs.";
 pub const ASSUMPTIONS: &[&str] = &[
     "the documented ignore list (scanner.rs SKIP_DIRECTORIES + *.egg-info) and pytest's default python_files patterns",
     "exclude patterns restricted to an algebra whose meaning does not depend on glob corner cases",
@@ -28,7 +28,9 @@ pub const DIR_NEAR: [&str; 7] = ["builds", ".venvs", "environment", "dists", "eg
 pub const FILE_SELECTED: [&str; 6] = ["conftest.py", "test_a.py", "test_.py", "b_test.py", "_test.py", "test_c.py"];
 pub const FILE_OTHER: [&str; 10] = ["test.py", "conftest.pyc", "Test_x.py", "test_x.txt", "mytest.py", "tests.py", "helper_1.py", "helper_2.py", "util.py", "__init__.py"];
 pub const IMPORT_TARGETS: [&str; 7] = ["helper_1", "helper_2", "util", "pkg.helper_1", "sub.util", "tests.helper_2", "pkg"];
-pub const PREFIXES: [&str; 6] = ["", "build/x", "env", "node_modules/n", "site-packages/p", "venv/lib"];
+/// a prefix starting with `@link:` places the tree under the rest of the prefix and hands the scan a
+/// symlink to it (the client names the workspace through a non-canonical path)
+pub const PREFIXES: [&str; 8] = ["", "build/x", "env", "node_modules/n", "site-packages/p", "venv/lib", "@link:plain", "@link:build/x"];
 
 #[derive(Clone, Debug, Serialize, Deserialize, PartialEq)]
 pub struct Imp {
@@ -366,12 +368,22 @@ pub fn check_tree(t: &Tree, info: &mut CaseInfo) -> Outcome {
     let mut known: BTreeSet<String> = BTreeSet::new();
     let mut detail = None;
     for (pi, prefix) in PREFIXES.iter().enumerate() {
-        let placed = match materialise(t, prefix) {
+        let real_prefix = prefix.strip_prefix("@link:").unwrap_or(prefix);
+        let placed = match materialise(t, real_prefix) {
             Ok(p) => p,
             Err(e) => return Outcome::Fail(format!("cannot materialise: {}", e)),
         };
         let db = FixtureDatabase::new();
-        db.scan_workspace_with_excludes(Path::new(&placed.root), &pats);
+        let scan_root = if prefix.starts_with("@link:") {
+            let link = format!("{}/lnk", placed.base);
+            if std::os::unix::fs::symlink(&placed.root, &link).is_err() {
+                continue;
+            }
+            link
+        } else {
+            placed.root.clone()
+        };
+        db.scan_workspace_with_excludes(Path::new(&scan_root), &pats);
         let recs = per_file(&db, &placed.root);
         info.checks += 1;
         if pi == 0 {
@@ -406,7 +418,7 @@ pub fn check_tree(t: &Tree, info: &mut CaseInfo) -> Outcome {
                     prefix,
                     crate::snapshot::first_diff(&json!(base), &json!(recs)).unwrap_or_default()
                 );
-                let ancestor_ignored = prefix.split('/').any(should_skip_dir);
+                let ancestor_ignored = real_prefix.split('/').any(should_skip_dir);
                 if ancestor_ignored && recs.is_empty() && !base.is_empty() {
                     info.known_trigger = true;
                     known.insert(KF_ANCESTOR_IGNORED.to_string());
@@ -415,7 +427,7 @@ pub fn check_tree(t: &Tree, info: &mut CaseInfo) -> Outcome {
                 }
                 return Outcome::Fail(msg);
             }
-            let cli = crate::cli::run_cli(&["fixtures", "list", &placed.root], 4);
+            let cli = crate::cli::run_cli(&["fixtures", "list", &scan_root], 4);
             let cli_rel: String = cli.stdout.lines().skip(1).collect::<Vec<_>>().join("\n");
             if &cli_rel != base_cli {
                 return Outcome::Fail(format!("workspace placed under `{}/`: `fixtures list` output differs from the plain placement:\n{}\n--- vs ---\n{}", prefix, cli_rel, base_cli));
@@ -431,7 +443,7 @@ pub fn check_tree(t: &Tree, info: &mut CaseInfo) -> Outcome {
 }
 
 pub fn run(ctx: &Ctx) {
-    ctx.run_prop_shrink("trees", ctx.tier.pick(400, 12_000), 16, 400, tree, |t, info| check_tree(t, info));
+    ctx.run_prop_shrink("trees", ctx.tier.pick(1_500, 60_000), 16, 400, tree, |t, info| check_tree(t, info));
 }
 
 pub fn judge(_ctx: &Ctx, sub: &str, case: &Value) -> Option<Outcome> {
